@@ -106,3 +106,29 @@ def as_lambda(repo: Repo, mod: Module, e: Optional[ast.AST]) -> Optional[ast.Lam
             ast.copy_location(lam, mod.defs[e.id])
             return lam
     return None
+
+
+def inlined_into(repo: Repo, mod: Module, qual: str, hosts) -> bool:
+    """True when function `qual` of `mod` is only called from functions listed in `hosts` ((module name, qualname) pairs, same module) and the
+    canonical form of each of those no longer contains a call to it: its body is analysed where the canonicaliser inlined it"""
+    me = mod.defs.get(qual)
+    if me is None:
+        return False
+    callers = set()
+    for q2, f2 in mod.defs.items():
+        if isinstance(f2, FuncT) and f2 is not me:
+            for x2 in calls_in(f2):
+                r2 = repo.resolve_call(mod, x2)
+                if r2 and r2[2] is me:
+                    callers.add((mod.name, q2))
+    if not callers:
+        return False
+    for k in callers:
+        if k not in hosts:
+            # a helper of a helper: accept when that one is itself inlined into a host
+            if not inlined_into(repo, mod, k[1], hosts):
+                return False
+            continue
+        if any(call_name(x3).split(".")[-1] == qual.split(".")[-1] for x3 in calls_in(repo.func(k[0], k[1]))):
+            return False
+    return True
